@@ -57,6 +57,60 @@ class Variable:
         return Variable(self.dims, self.arr if not deep else self.arr.copy(), dict(self.attrs), dict(self.encoding))
 
 
+class DimIndex:
+    """PD-INDEX-MONOTONIC: the pandas index of a dimension coordinate. is_monotonic_increasing / _decreasing are (non-strict) facts about ALL
+    the values: each is a Boolean m with  m => a[j] <= a[j+1]  (resp. >=) instantiated at position 0 and at one Skolem position, and
+    not m => the witness pair a[w] > a[w+1] (resp. <) exists; arrays shorter than two are both."""
+    _pyvc_model_class = True
+
+    def __init__(self, arr, name):
+        self.arr, self.name = arr, name
+
+    def _len(self):
+        return self.arr.shape[0]
+
+    def _asarray(self):
+        return self.arr
+
+    @property
+    def values(self):
+        return self.arr
+
+    def to_numpy(self):
+        return self.arr
+
+    def _mono(self, increasing):
+        from .floats import to_sfloat
+        c = core.ctx()
+        a, n = self.arr, self.arr.shape[0]
+        m = c.fresh_bool(('inc_' if increasing else 'dec_') + str(self.name))
+        w = c.fresh_int('mono_w')
+
+        def le(i, j):
+            x, y = a.fn((i,)), a.fn((j,))
+            if hasattr(x, 'kind') or hasattr(y, 'kind'):
+                x, y = to_sfloat(x), to_sfloat(y)
+            r = (x <= y) if increasing else (x >= y)
+            return core.zbool(r) if not isinstance(r, bool) else z3.BoolVal(r)
+        c.assume(z3.Implies(zint(n) < 2, m.z))
+        c.assume(z3.Implies(z3.And(m.z, zint(n) >= 2), le(0, 1)))
+        c.assume(z3.Implies(z3.And(z3.Not(m.z), zint(n) >= 2), z3.And(zint(w) >= 0, zint(w) + 1 < zint(n))))
+        if not (is_sym(n)) and n >= 2:
+            c.assume(m.z == z3.And(*[le(j, j + 1) for j in range(n - 1)]))
+        else:
+            c.assume(z3.Implies(z3.And(z3.Not(m.z), zint(n) >= 2), z3.Not(le(w, w + 1))))
+            self.monotone_fact = lambda j: c.assume(z3.Implies(z3.And(m.z, zint(j) >= 0, zint(j) + 1 < zint(n)), le(j, j + 1)))
+        return m
+
+    @property
+    def is_monotonic_increasing(self):
+        return self._mono(True)
+
+    @property
+    def is_monotonic_decreasing(self):
+        return self._mono(False)
+
+
 class Mapping_:
     """Read-only ordered mapping view (variables / data_vars / coords / sizes)."""
     _pyvc_model_class = True
@@ -242,6 +296,15 @@ class XDataArray:
             raise Unsupported(f'DataArray.astype options {sorted(kw)}')
         v = self.variable
         return XDataArray(_var=Variable(v.dims, v.arr.astype(dtype), dict(v.attrs), dict(v.encoding)), name=self.name, _coords=self._coords)
+
+    def get_axis_num(self, dim):
+        """XR-GET-AXIS-NUM: the position of a dimension name (or of each of several) in .dims; ValueError for a name that is not one"""
+        used('XR-GET-AXIS-NUM')
+        if isinstance(dim, (list, tuple, core.TList)):
+            return tuple(self.get_axis_num(d) for d in dim)
+        if dim not in self.dims:
+            raise_(ValueError, f'{dim!r} not found in array dimensions {self.dims!r}')
+        return list(self.dims).index(dim)
 
     def transpose(self, *dims, **kw):
         used('XR-TRANSPOSE')
@@ -606,6 +669,16 @@ class XDataset:
         return Mapping_(lambda: list(self._sizes().keys()), lambda d: self._sizes()[d], 'sizes')
 
     @property
+    def indexes(self):
+        """XR-INDEXES: one pandas index per *dimension coordinate* (a 1-d coordinate named after its dimension), keyed by that name, in
+        the order of the variables; dimensions without such a coordinate have none (.get gives None)"""
+        used('XR-INDEXES')
+        names = lambda: [k for k in self._vars if k in self._coord_names and self._vars[k].dims == (k,)]
+        return Mapping_(names, lambda k: DimIndex(self._vars[k].arr, k), 'indexes')
+
+    xindexes = indexes
+
+    @property
     def dims(self):
         return self.sizes
 
@@ -652,6 +725,16 @@ class XDataset:
         except TypeError:
             ok = False
         if not ok:
+            sizes = self._sizes()
+            try:
+                is_dim = k in sizes
+            except TypeError:
+                is_dim = False
+            if is_dim:
+                # XR-DIM-DEFAULT-INDEX: dataset[dim] for a dimension without a coordinate variable is the default index 0 .. n - 1
+                used('XR-DIM-DEFAULT-INDEX')
+                n = sizes[k]
+                return XDataArray(_var=Variable((k,), NDArray((n,), lambda i: i[0], np.INT64), {}, {}), name=k)
             raise PyRaise(ExcObj(KeyError, (k,)))
         return self._da(k)
 
